@@ -1,4 +1,4 @@
 SPECIFICATION Spec
-CONSTANTS MaxN = 4 MaxV = 3 AnyValues = FALSE AsIs_SortedReturn = TRUE Mut_WrongDirection = FALSE Mut_TieJitter = FALSE Thorough = FALSE
+CONSTANTS MaxN = 3 MaxV = 2 AnyValues = FALSE AsIs_SortedReturn = TRUE Mut_WrongDirection = FALSE Mut_TieJitter = FALSE Thorough = FALSE
 INVARIANT Inv_Equivariant
 CHECK_DEADLOCK FALSE
